@@ -333,11 +333,21 @@ type c11Gen struct {
 func c11Key(p []string) string { return strings.Join(p, ".") }
 
 func (g *c11Gen) fresh(prefix byte, scope []string) string {
+	// NameSeg := LeadNameChar NameChar NameChar NameChar; lead from the whole legal set incl. its
+	// boundaries ('A', 'Z', '_'), the rest from A-Z, 0-9, '_' incl. boundary characters
+	const lead = "AABCMXYZZ__"
+	const rest = "AAZZ0099__BCMNXY12345678"
+	r := g.r
 	for {
 		g.seq++
-		s := fmt.Sprintf("%c%03d", prefix, g.seq%1000)
-		if g.r.chance(15) { // reuse a short pool of names across scopes
-			s = fmt.Sprintf("%c_%02d", prefix, g.r.intn(6))
+		var s string
+		switch r.intn(10) {
+		case 0, 1, 2: // readable sequential names (kind letter + number)
+			s = fmt.Sprintf("%c%03d", prefix, g.seq%1000)
+		case 3: // a short pool reused across scopes
+			s = fmt.Sprintf("%c_%02d", prefix, r.intn(6))
+		default:
+			s = string([]byte{lead[r.intn(len(lead))], rest[r.intn(len(rest))], rest[r.intn(len(rest))], rest[r.intn(len(rest))]})
 		}
 		if _, ok := g.decl[c11Key(append(append([]string(nil), scope...), s))]; !ok {
 			return s
@@ -973,6 +983,11 @@ func TestVerifC11(t *testing.T) {
 				cont("scope", N(true, 0, "DEV0"), method(N(false, 0, "MTH4"), 0, call("MTH5"), call("MTH2")), method(N(false, 0, "MTH5"), 0))},
 			[]c11Node{cont("scope", N(true, 0, "_SB_"), method(N(false, 0, "MTH6"), 1, call("MTH7", c11Leaf{"A0", []byte{0x68}})), method(N(false, 0, "MTH7"), 1, call("MTH2"))),
 				name(N(false, 0, "LAT1"), c11Buf{1, 2, []byte{9}})}),
+		c11Hand("b-names-leading-A", "call,scope-absolute,name-absolute", []c11Node{
+			cont("scope", N(false, 0, "_SB_"), cont("device", N(false, 0, "ADEV"), name(N(false, 0, "AAAA"), i1(1)), method(N(false, 0, "AMTH"), 1))),
+			cont("scope", N(true, 0, "_SB_", "ADEV"), name(N(false, 0, "A_Z9"), i1(2)), name(N(true, 0, "_SB_", "ZZZZ"), i1(3))),
+			method(N(true, 0, "AMT2"), 2), method(N(false, 0, "ZMTH"), 0, &c11List{kind: "call", name: N(true, 0, "AMT2"), kids: []c11Node{i1(1), i1(2)}}),
+			name(N(true, 0, "ANAM"), i1(4)), name(N(false, 0, "____"), i1(5)), name(N(false, 0, "Z999"), i1(6))}),
 		c11Hand("b-later-table", "call,later-table-scope", []c11Node{cont("scope", N(false, 0, "_SB_"), cont("device", N(false, 0, "DEV0"), method(N(false, 0, "M000"), 1)))},
 			[]c11Node{cont("scope", N(true, 0, "_SB_", "DEV0"), name(N(false, 0, "N000"), i1(1)), method(N(false, 0, "M001"), 0, call("M000", i1(9))))}),
 	)
